@@ -18,7 +18,7 @@ class Hub(Device):
         self.outs = []
         self.endpoints = []
         for idx, endpoint in enumerate(endpoints):
-            self.add_endpoint(endpoint, ports[idx])
+            self.add_endpoint(endpoint, ports[idx] if ports else None)
 
     def add_endpoint(self, endpoint: SingleDevice, port: Optional[SingleDevice]):
         endpoint.out = self
